@@ -31,6 +31,8 @@ const preludeBody = `(declare-datatypes ((Path 0)) (((PNil) (PFld (pfp Path) (pf
 (declare-fun strcat (Str Str) Str)
 (declare-const emptystr Str)
 (assert (= (strlen emptystr) 0))
+(declare-const zerorow$Str (Array Path Str))
+(assert (forall ((p Path)) (! (= (select zerorow$Str p) emptystr) :pattern ((select zerorow$Str p)))))
 (define-fun tdiv ((a Int) (b Int)) Int (ite (>= a 0) (ite (>= b 0) (div a b) (- (div a (- b)))) (ite (>= b 0) (- (div (- a) b)) (div (- a) (- b)))))
 (define-fun tmod ((a Int) (b Int)) Int (- a (* b (tdiv a b))))`
 
@@ -97,6 +99,9 @@ var outDir = "/verif/out"
 func Discharge(o *Obligation, timeoutS int) {
 	t0 := time.Now()
 	defer func() { o.TimeS = time.Since(t0).Seconds() }()
+	if o.ExpectSat && o.PreMark > 0 && timeoutS > 2 {
+		timeoutS = 2
+	}
 	if o.ExpectSat && timeoutS > 3 {
 		// vacuity guards expect `sat`, which solvers rarely report in the presence of quantifiers:
 		// keep them cheap; an undecided guard is recorded, not an alarm
@@ -114,7 +119,7 @@ func Discharge(o *Obligation, timeoutS int) {
 		}
 	}
 	defer func() {
-		if o.Status == "proved" || o.Status == "covered" {
+		if (o.Status == "proved" || o.Status == "covered" || o.Status == "dead") && os.Getenv("GOVC_KEEP") == "" {
 			for _, f := range files {
 				os.Remove(f)
 			}
@@ -125,6 +130,19 @@ func Discharge(o *Obligation, timeoutS int) {
 		case "unsat":
 			if o.ExpectSat {
 				o.Status = "vacuous"
+				if o.PreMark > 0 {
+					// a call site: unreachable after assuming the callee's contract. Dead code if it was
+					// already unreachable before the call; a contradictory assumption otherwise.
+					pre := *o
+					pre.Mark, pre.Reach, pre.PreMark = o.PreMark, o.PreReach, 0
+					pf := base + ".pre.smt2"
+					os.WriteFile(pf, []byte(pre.queryText(solvers[0].head)), 0o644)
+					r, _ := runSolver(context.Background(), solvers[0], pf, 5)
+					os.Remove(pf)
+					if r == "unsat" {
+						o.Status = "dead"
+					}
+				}
 			} else {
 				o.Status = "proved"
 			}
